@@ -35,7 +35,7 @@ static void configure(long code, char *desc, size_t n)
     snprintf(desc, n, "hist=%d sync=%d emcy=%d hbc=%d hbprod=%d sdo=%d csdo=%d rpdo0=%d rpdo1=%d tpdo0=%d tpdo1=%d freq=%u", d[0], d[1], d[2], d[3], d[4], d[5], d[6], d[7], d[8], d[9], d[10], NC.freq);
 }
 
-#define NEV 56
+#define NEV 58
 static void sdo(uint8_t c, uint16_t idx, uint8_t sub, uint32_t v, uint8_t dlc)
 {
     uint8_t d[8] = { c, (uint8_t)idx, (uint8_t)(idx >> 8), sub, (uint8_t)v, (uint8_t)(v >> 8), (uint8_t)(v >> 16), (uint8_t)(v >> 24) };
@@ -77,6 +77,9 @@ static void apply(int e)
     case 51: w_rx(&Node, 0x585, 0, z); break;                 case 52: sdo(0x40, 0x2130, 0, 0, 8); sdo(0x60, 0, 0, 0, 3); break;
     case 53: (void)CONodeGetErr(&Node); (void)CONmtGetHbEvents(&Node.Nmt, 9); (void)CONmtLastHbState(&Node.Nmt, 10); break;
     case 54: z[0] = 0x5E; w_rx(&Node, 0x7E5, 1, z); break;    case 55: sdo(0x80, 0, 0, 0, 8); break;
+    /* the value API used on a domain again and again without a rewind in between: the object's own cursor must stay inside the object */
+    case 56: { uint8_t v8 = 0; uint16_t v16 = 0; uint32_t v32 = 0; for (int k = 0; k < 26; k++) { (void)CODictRdByte(&Node.Dict, CO_DEV(0x2130, 0), &v8); (void)CODictRdWord(&Node.Dict, CO_DEV(0x2130, 0), &v16); (void)CODictRdLong(&Node.Dict, CO_DEV(0x2130, 0), &v32); } break; }
+    case 57: for (int k = 0; k < 26; k++) { (void)CODictWrByte(&Node.Dict, CO_DEV(0x2130, 0), (uint8_t)k); (void)CODictWrLong(&Node.Dict, CO_DEV(0x2130, 0), 0x01020304u); } break;
     default: break;
     }
 }
